@@ -4,8 +4,8 @@
    of C04/C05/C09/C10 is stated for an arbitrary pure `accept` and concludes IsPath/good_edge, i.e. every returned
    edge satisfies accept, and reachability is Reach in the graph of accepted edges only; the *_exhaustive theorems
    say the visited set is exactly that reachable set. *)
-From Gdsl.Model Require Import Spec Callback.
-From Gdsl.Proofs Require Import Worklist Descend Order SearchGlue.
+From Gdsl.Model Require Import Spec Callback SearchFind.
+From Gdsl.Proofs Require Import Worklist Descend Order SearchGlue SearchFindProof.
 
 (* breadth-/priority-first without target: the closure is handed exactly the adjacency entries of the reachable nodes, each once (Permutation), oriented from the expanded node, with stored values *)
 Theorem c07_foreach_once_bfs_pfs :
@@ -67,6 +67,19 @@ Theorem c07_foreach_once_orderings :
            (flat_map (fun u : nat => map (fun x : nat * E => (u, fst x, snd x)) (adj_of h d u)) R).
 Proof. exact descend_foreach_once. Qed.
 Print Assumptions c07_foreach_once_orderings.
+
+(* the search() entry points run separate loops in the code (model/SearchFind.v); for EVERY closure they end with the same callback state — hence hand the closure exactly the same edges in the same order — and the same visited set as search_path(), so the statements above and below hold for search() too *)
+Theorem c07_search_entry_point_same_closure_calls :
+  forall (K V E : Type) (keqb : K -> K -> bool) (CB : Type)
+         (cb : CB -> heap K V E -> edge E -> CB * heap K V E * bool) (vleb : V -> V -> bool) 
+         (k : kind) (d : dir) (fuel : nat) (h : heap K V E) (c : CB) (root : nat) 
+         (target : option K),
+       let x := search_find' keqb cb vleb k d fuel h c root target in
+       let y := run_search keqb cb vleb k d fuel h c root target false in
+       snd x = res_of_status E (snd y) /\
+       s_heap (fst x) = s_heap (fst y) /\ s_cb (fst x) = s_cb (fst y) /\ s_vis (fst x) = s_vis (fst y).
+Proof. exact find_machine_agrees. Qed.
+Print Assumptions c07_search_entry_point_same_closure_calls.
 
 (* with a pure filter: the recorded tree consists of accepted edges only and the visited nodes are exactly those reachable through accepted edges *)
 Theorem c07_filter_bfs_pfs :
